@@ -35,7 +35,7 @@ func genC10(r *rand.Rand, _ int, _ string) *Scenario {
 
 	years := 365 * 24 * 3600 * sec
 	cfgTTLs := []int64{0, -1, 1, 7, 999, ms, sec, 17 * sec, 3600 * sec, 24 * 3600 * sec, years, 10 * years, -2, -999, -ms, -sec, -24 * 3600 * sec, -years}
-	be.Cfg = BEConfig{TTLNs: pick(r, cfgTTLs...), Jitter: pick(r, -1.0, 0, 0, 0.01, 0.3, 0.5, 1, r.Float64()), Strategy: r.IntN(3)}
+	be.Cfg = BEConfig{TTLNs: pick(r, cfgTTLs...), Jitter: pick(r, -1.0, 0, 0, 0.01, 0.3, 0.5, 1, 1.5, 2, r.Float64()), Strategy: r.IntN(3)}
 
 	if be.Cfg.Jitter == 0 && chance(r, 0.5) {
 		be.Cfg.Jitter = 0 // library default 0.1
@@ -46,6 +46,13 @@ func genC10(r *rand.Rand, _ int, _ string) *Scenario {
 	n := 1 + r.IntN(6)
 	for i := 0; i < n; i++ {
 		op := BEOp{Kind: "write", Key: r.IntN(len(be.Keys))}
+
+		if chance(r, 0.12) {
+			// Store has no context: the configured TimeToLive (and jitter) applies
+			be.Root = append(be.Root, BEOp{Kind: "store", Key: op.Key})
+
+			continue
+		}
 
 		if chance(r, 0.6) {
 			op.HasTTL = true
